@@ -9,6 +9,7 @@ code.
 -/
 import PamsLemmas.SrcAgentsFcn
 import PamsProps.C20
+import Batteries.Tactic.Alias
 
 open Pams Pams.Py Pams.Agents Pams.Src
 
@@ -56,6 +57,11 @@ theorem source_fcn_inaccessible (t window mrt : Nat) (wf wc wn ns margin fund mp
     resultG ordersObs (rhoFcn t window mrt wf wc wn ns margin fund mp mpPast g false cf) fcnEnv FUEL
         "FCNAgent.submit_orders_by_market" [.ref 1, .ref 5] fcnSt = .tuple [] :=
   fcn_src_inaccessible t window mrt wf wc wn ns margin fund mp mpPast g cf
+
+/-- **the market-share FCN agent's source**: candidates = the accessible markets, weights = traded volume over
+the last `time_window_size` steps up to now (cut at time 0) plus 1e-10, handed to `choices`; the FCN order is
+made for the market drawn, and only for it -/
+alias source_market_share_weights := ms_src
 
 end Uninterpreted
 
